@@ -32,36 +32,9 @@ def _fixed_point(order, i, j):
     base = M.norm(M.build(T, pl[i], pl[j]).calculate())
     if got != base:
         return False              # the result does not depend on the order cells were added
-    # fixed point: every formula cell equals its own formula applied to the values of the cells it refers to
-    for k, v in d.items():
-        if not (isinstance(v, str) and v.startswith('=')) or k == M.NAME:
-            continue
-        func = formulas.Parser().ast(v)[1].compile()
-        args = []
-        for name, rng in func.inputs.items():
-            if name in sol:
-                args.append(sol[name])
-                continue
-            # a multi-area reference is one argument: the union of the calculated areas
-            areas = getattr(rng, 'ranges', None)
-            if not areas or any(r['name'] not in sol for r in areas):
-                return False
-            arg = Ranges(areas)
-            for r in areas:
-                arg.values.update(sol[r['name']].values)
-            args.append(arg)
-        val = func(*args)
-        shp = np.shape(sol[k].value)
-        fit = Ranges().push(k, val).value if shp != (1, 1) else val
-        if M.norm_value(np.asarray(fit, object).reshape(shp) if np.size(fit) == np.prod(shp) else fit) != got[k]:
-            return False
+    # fixed point: every formula cell equals its own formula applied to the values of the cells it refers to;
     # constants hold their stored values
-    for k, v in d.items():
-        if not isinstance(v, str) or not v.startswith('='):
-            want = M.norm_value([[M.sh.EMPTY]] if v == '#EMPTY' else v)
-            if got[k] != (want if isinstance(want, list) else [[want]]):
-                return False
-    return True
+    return M.fixed_point(d, sol)
 
 
 def fixed_point_ok(o0: bool, o1: bool, o2: bool, i0: bool, i1: bool, i2: bool, j0: bool, j1: bool, j2: bool) -> bool:
